@@ -260,3 +260,16 @@ func VerifBinaryStore(bitMetric, floatMetric string, threshold *float32, trigger
 	}
 	return &VerifFittedBinary{bq: bq}, nil
 }
+
+// VerifProductEncode runs productQuantizer.encode of a quantizer whose flat
+// centroids are given (empty: not fitted) with distFn as sub-vector distance.
+func VerifProductEncode(numSubVectors, numCentroids, subVectorLen int, distFn distance.FloatDistFunc, flatCentroids, vector []float32) []uint8 {
+	pq := &productQuantizer{
+		params:            models.ProductQuantizerParameters{NumCentroids: numCentroids, NumSubVectors: numSubVectors},
+		distFn:            distFn,
+		originalVectorLen: numSubVectors * subVectorLen,
+		subVectorLen:      subVectorLen,
+		flatCentroids:     flatCentroids,
+	}
+	return pq.encode(vector)
+}
